@@ -401,6 +401,7 @@ impl Design {
         loc[..keep].to_vec()
     }
 
+    #[allow(dead_code)]
     fn g3_layer(&self, gi: usize, m: usize, l: &Layer) -> GV {
         self.g3_layer_o(gi, m, l, &G3Opts::default())
     }
